@@ -404,10 +404,98 @@ def opIf (c : Ctx) (st : St) (isNotIf : Bool) : R St :=
         .ok { st with stack := s, cond := (if isNotIf then !b else b) :: st.cond }
   else .ok { st with cond := false :: st.cond }
 
+/-- OP_CHECKLOCKTIMEVERIFY -/
+def opCLTV (c : Ctx) (st : St) : R St :=
+  if !c.flags.cltv then .ok st else
+  match st.stack with
+  | [] => invalidStack
+  | a :: _ =>
+    match decodeNum a c.flags.minimaldata 5 with
+    | .error e => .error e
+    | .ok n =>
+      if n < 0 then .error .NEGATIVE_LOCKTIME
+      else if !c.chk.lockTime n then .error .UNSATISFIED_LOCKTIME
+      else .ok st
+
+/-- OP_CHECKSEQUENCEVERIFY -/
+def opCSV (c : Ctx) (st : St) : R St :=
+  if !c.flags.csv then .ok st else
+  match st.stack with
+  | [] => invalidStack
+  | a :: _ =>
+    match decodeNum a c.flags.minimaldata 5 with
+    | .error e => .error e
+    | .ok n =>
+      if n < 0 then .error .NEGATIVE_LOCKTIME
+      else if n.toNat &&& SEQUENCE_LOCKTIME_DISABLE_FLAG != 0 then .ok st
+      else if !c.chk.sequence n then .error .UNSATISFIED_LOCKTIME
+      else .ok st
+
+/-- OP_PICK / OP_ROLL -/
+def opPickRoll (c : Ctx) (st : St) (roll : Bool) : R St :=
+  match st.stack with
+  | nb :: s@(_ :: _) =>
+    match decodeNum nb c.flags.minimaldata with
+    | .error e => .error e
+    | .ok n =>
+      let n := clampInt n
+      if n < 0 || n ≥ (s.length : Int) then invalidStack else
+      let i := n.toNat
+      match s[i]? with
+      | none => invalidStack
+      | some v =>
+        if roll then .ok { st with stack := v :: s.eraseIdx i }
+        else .ok { st with stack := v :: s }
+  | _ => invalidStack
+
+/-- OP_WITHIN -/
+def opWithin (c : Ctx) (st : St) : R St :=
+  match st.stack with
+  | mx :: mn :: x :: s =>
+    match decodeNum x c.flags.minimaldata, decodeNum mn c.flags.minimaldata, decodeNum mx c.flags.minimaldata with
+    | .ok n1, .ok n2, .ok n3 => .ok { st with stack := boolBytes (decide (n2 ≤ n1) && decide (n1 < n3)) :: s }
+    | .error e, _, _ => .error e
+    | _, .error e, _ => .error e
+    | _, _, .error e => .error e
+  | _ => invalidStack
+
+/-- OP_NUMEQUALVERIFY -/
+def opNumEqualVerify (c : Ctx) (st : St) : R St :=
+  match binaryNum c st (fun a b => boolBytes (a == b)) with
+  | .error e => .error e
+  | .ok st' =>
+    match st'.stack with
+    | r :: s => if castToBool r then .ok { st' with stack := s } else .error .NUMEQUALVERIFY
+    | _ => invalidStack
+
+/-- OP_CHECKSIG / OP_CHECKSIGVERIFY -/
+def opChecksig (c : Ctx) (st : St) (verify : Bool) : R St :=
+  match st.stack with
+  | pk :: sig :: s =>
+    match evalChecksig c st sig pk with
+    | .error e => .error e
+    | .ok (ok, w) =>
+      if verify then
+        if ok then .ok { st with stack := s, weight := w } else .error .CHECKSIGVERIFY
+      else .ok { st with stack := boolBytes ok :: s, weight := w }
+  | _ => invalidStack
+
+/-- OP_CHECKSIGADD -/
+def opChecksigAdd (c : Ctx) (st : St) : R St :=
+  if c.sv == .base || c.sv == .witnessV0 then .error .BAD_OPCODE else
+  match st.stack with
+  | pk :: nb :: sig :: s =>
+    match decodeNum nb c.flags.minimaldata with
+    | .error e => .error e
+    | .ok n =>
+      match evalChecksig c st sig pk with
+      | .error e => .error e
+      | .ok (ok, w) => .ok { st with stack := encodeNum (n + (if ok then 1 else 0)) :: s, weight := w }
+  | _ => invalidStack
+
 /-- The body of `EvalScript`'s `switch (opcode)` for a non-push opcode that is executed
 (or is one of OP_IF..OP_ENDIF). `rest` = script after this opcode (for OP_CODESEPARATOR). -/
 def execOp (c : Ctx) (op : Nat) (rest : Bytes) (st : St) : R St :=
-  let fl := c.flags
   match op with
   -- OP_1NEGATE, OP_1 .. OP_16
   | 0x4f => .ok { st with stack := encodeNum (-1) :: st.stack }
@@ -415,27 +503,10 @@ def execOp (c : Ctx) (op : Nat) (rest : Bytes) (st : St) : R St :=
   | 0x59 | 0x5a | 0x5b | 0x5c | 0x5d | 0x5e | 0x5f | 0x60 =>
     .ok { st with stack := encodeNum ((op : Int) - 0x50) :: st.stack }
   | 0x61 => .ok st   -- NOP
-  | 0xb1 =>          -- CHECKLOCKTIMEVERIFY
-    if !fl.cltv then .ok st else
-    match st.stack with
-    | [] => invalidStack
-    | a :: _ => do
-      let n ← decodeNum a fl.minimaldata 5
-      if n < 0 then .error .NEGATIVE_LOCKTIME
-      else if !c.chk.lockTime n then .error .UNSATISFIED_LOCKTIME
-      else .ok st
-  | 0xb2 =>          -- CHECKSEQUENCEVERIFY
-    if !fl.csv then .ok st else
-    match st.stack with
-    | [] => invalidStack
-    | a :: _ => do
-      let n ← decodeNum a fl.minimaldata 5
-      if n < 0 then .error .NEGATIVE_LOCKTIME
-      else if n.toNat &&& SEQUENCE_LOCKTIME_DISABLE_FLAG != 0 then .ok st
-      else if !c.chk.sequence n then .error .UNSATISFIED_LOCKTIME
-      else .ok st
+  | 0xb1 => opCLTV c st
+  | 0xb2 => opCSV c st
   | 0xb0 | 0xb3 | 0xb4 | 0xb5 | 0xb6 | 0xb7 | 0xb8 | 0xb9 =>   -- NOP1, NOP4..NOP10
-    if fl.discourageNops then .error .DISCOURAGE_UPGRADABLE_NOPS else .ok st
+    if c.flags.discourageNops then .error .DISCOURAGE_UPGRADABLE_NOPS else .ok st
   | 0x63 => opIf c st false
   | 0x64 => opIf c st true
   | 0x67 =>          -- ELSE
@@ -487,19 +558,8 @@ def execOp (c : Ctx) (op : Nat) (rest : Bytes) (st : St) : R St :=
     | x2 :: _ :: s => .ok { st with stack := x2 :: s } | _ => invalidStack
   | 0x78 => match st.stack with   -- OVER
     | x2 :: x1 :: s => .ok { st with stack := x1 :: x2 :: x1 :: s } | _ => invalidStack
-  | 0x79 | 0x7a =>                -- PICK, ROLL
-    match st.stack with
-    | nb :: s@(_ :: _) => do
-      let n ← decodeNum nb fl.minimaldata
-      let n := clampInt n
-      if n < 0 || n ≥ (s.length : Int) then invalidStack else
-      let i := n.toNat
-      match s[i]? with
-      | none => invalidStack
-      | some v =>
-        if op == 0x7a then .ok { st with stack := v :: s.eraseIdx i }
-        else .ok { st with stack := v :: s }
-    | _ => invalidStack
+  | 0x79 => opPickRoll c st false
+  | 0x7a => opPickRoll c st true
   | 0x7b => match st.stack with   -- ROT
     | x3 :: x2 :: x1 :: s => .ok { st with stack := x1 :: x3 :: x2 :: s } | _ => invalidStack
   | 0x7c => match st.stack with   -- SWAP
@@ -524,11 +584,7 @@ def execOp (c : Ctx) (op : Nat) (rest : Bytes) (st : St) : R St :=
   | 0x9a => binaryNum c st (fun a b => boolBytes (a != 0 && b != 0))
   | 0x9b => binaryNum c st (fun a b => boolBytes (a != 0 || b != 0))
   | 0x9c => binaryNum c st (fun a b => boolBytes (a == b))
-  | 0x9d => do                    -- NUMEQUALVERIFY
-    let st' ← binaryNum c st (fun a b => boolBytes (a == b))
-    match st'.stack with
-    | r :: s => if castToBool r then .ok { st' with stack := s } else .error .NUMEQUALVERIFY
-    | _ => invalidStack
+  | 0x9d => opNumEqualVerify c st
   | 0x9e => binaryNum c st (fun a b => boolBytes (a != b))
   | 0x9f => binaryNum c st (fun a b => boolBytes (decide (a < b)))
   | 0xa0 => binaryNum c st (fun a b => boolBytes (decide (a > b)))
@@ -536,56 +592,50 @@ def execOp (c : Ctx) (op : Nat) (rest : Bytes) (st : St) : R St :=
   | 0xa2 => binaryNum c st (fun a b => boolBytes (decide (a ≥ b)))
   | 0xa3 => binaryNum c st (fun a b => encodeNum (if a < b then a else b))
   | 0xa4 => binaryNum c st (fun a b => encodeNum (if a > b then a else b))
-  | 0xa5 =>                       -- WITHIN
-    match st.stack with
-    | mx :: mn :: x :: s => do
-      let n1 ← decodeNum x fl.minimaldata
-      let n2 ← decodeNum mn fl.minimaldata
-      let n3 ← decodeNum mx fl.minimaldata
-      .ok { st with stack := boolBytes (decide (n2 ≤ n1) && decide (n1 < n3)) :: s }
-    | _ => invalidStack
+  | 0xa5 => opWithin c st
   | 0xa6 => hashOp st ripemd160
   | 0xa7 => hashOp st sha1
   | 0xa8 => hashOp st sha256
   | 0xa9 => hashOp st hash160
   | 0xaa => hashOp st hash256
   | 0xab => .ok { st with code := rest, codesepPos := st.opPos }   -- CODESEPARATOR
-  | 0xac | 0xad =>                -- CHECKSIG, CHECKSIGVERIFY
-    match st.stack with
-    | pk :: sig :: s => do
-      let (ok, w) ← evalChecksig c st sig pk
-      if op == 0xad then
-        if ok then .ok { st with stack := s, weight := w } else .error .CHECKSIGVERIFY
-      else .ok { st with stack := boolBytes ok :: s, weight := w }
-    | _ => invalidStack
-  | 0xba =>                       -- CHECKSIGADD
-    if c.sv == .base || c.sv == .witnessV0 then .error .BAD_OPCODE else
-    match st.stack with
-    | pk :: nb :: sig :: s => do
-      let n ← decodeNum nb fl.minimaldata
-      let (ok, w) ← evalChecksig c st sig pk
-      .ok { st with stack := encodeNum (n + (if ok then 1 else 0)) :: s, weight := w }
-    | _ => invalidStack
+  | 0xac => opChecksig c st false
+  | 0xad => opChecksig c st true
+  | 0xba => opChecksigAdd c st
   | 0xae => opCheckMultisig c st false
   | 0xaf => opCheckMultisig c st true
   | _ => .error .BAD_OPCODE
 
-/-- One iteration of the `EvalScript` loop for an already tokenised opcode. -/
-def stepOp (c : Ctx) (op : Nat) (data rest : Bytes) (st : St) : R St := do
+/-- op counting: only BASE / WITNESS_V0 scripts count non-push opcodes -/
+def countOp (c : Ctx) (op : Nat) (n : Nat) : Nat :=
+  if (c.sv == .base || c.sv == .witnessV0) && op > OP_16 then n + 1 else n
+
+/-- checks made for every opcode seen, executed or not; returns the state with the op counted -/
+def stepPre (c : Ctx) (op : Nat) (data : Bytes) (st : St) : R St :=
   if data.length > MAX_SCRIPT_ELEMENT_SIZE then .error .PUSH_SIZE else
-  let nOps := if (c.sv == .base || c.sv == .witnessV0) && op > OP_16 then st.nOps + 1 else st.nOps
-  if nOps > MAX_OPS_PER_SCRIPT then .error .OP_COUNT else
+  if countOp c op st.nOps > MAX_OPS_PER_SCRIPT then .error .OP_COUNT else
   if isDisabled op then .error .DISABLED_OPCODE else
   if op == OP_CODESEPARATOR && c.sv == .base && c.flags.constScriptcode then .error .OP_CODESEPARATOR else
-  let st := { st with nOps := nOps }
-  let st' ←
-    if st.exec && op ≤ OP_PUSHDATA4 then
-      if c.flags.minimaldata && !checkMinimalPush op data then .error .MINIMALDATA
-      else .ok { st with stack := data :: st.stack }
-    else if st.exec || (OP_IF ≤ op && op ≤ OP_ENDIF) then execOp c op rest st
-    else .ok st
-  if st'.stack.length + st'.alt.length > MAX_STACK_SIZE then .error .STACK_SIZE
-  else .ok { st' with opPos := st'.opPos + 1 }
+  .ok { st with nOps := countOp c op st.nOps }
+
+/-- push / execute / skip -/
+def stepCore (c : Ctx) (op : Nat) (data rest : Bytes) (st : St) : R St :=
+  if st.exec && op ≤ OP_PUSHDATA4 then
+    if c.flags.minimaldata && !checkMinimalPush op data then .error .MINIMALDATA
+    else .ok { st with stack := data :: st.stack }
+  else if st.exec || (OP_IF ≤ op && op ≤ OP_ENDIF) then execOp c op rest st
+  else .ok st
+
+/-- combined stack size limit, then advance the opcode position -/
+def stepPost (st : St) : R St :=
+  if st.stack.length + st.alt.length > MAX_STACK_SIZE then .error .STACK_SIZE
+  else .ok { st with opPos := st.opPos + 1 }
+
+/-- One iteration of the `EvalScript` loop for an already tokenised opcode. -/
+def stepOp (c : Ctx) (op : Nat) (data rest : Bytes) (st : St) : R St := do
+  let st0 ← stepPre c op data st
+  let st1 ← stepCore c op data rest st0
+  stepPost st1
 
 /-- The main loop of `EvalScript`; `fuel ≥ script.length` always suffices (`eval_total`). -/
 def evalLoop (c : Ctx) : Nat → Bytes → St → R St
